@@ -59,6 +59,7 @@ func (c *Ctx) c34Gate() {
 	nUse, nWrite := 0, 0
 	perFunc := map[string]int{}
 	eachFunc(pk, func(fd *ast.FuncDecl) {
+		defs := localDefs(info, fd.Body)
 		walkStack(fd.Body, func(n ast.Node, stack []ast.Node) bool {
 			// writes of Unsafe outside the parser
 			if as, ok := n.(*ast.AssignStmt); ok {
@@ -74,40 +75,109 @@ func (c *Ctx) c34Gate() {
 				return true
 			}
 			// the enclosing call that receives it
-			var call *ast.CallExpr
-			for k := len(stack) - 1; k >= 0; k-- {
-				if ce, ok := stack[k].(*ast.CallExpr); ok {
-					call = ce
-					break
+			enclosingCall := func(stack []ast.Node) *ast.CallExpr {
+				for k := len(stack) - 1; k >= 0; k-- {
+					if ce, ok := stack[k].(*ast.CallExpr); ok {
+						return ce
+					}
+					if _, ok := stack[k].(ast.Stmt); ok {
+						break
+					}
 				}
-				if _, ok := stack[k].(ast.Stmt); ok {
-					break
-				}
+				return nil
 			}
+			call := enclosingCall(stack)
 			fk := funcKey(c34AutoPkg, fd)
 			perFunc[fk]++
 			key := fmt.Sprintf("exec:%s#%d", fk, perFunc[fk])
 			nUse++
+			// `typed := pt.Source[:pt.LastFlowToken]; cmdline.Execute(typed)`: the text is handed to the
+			// call through a local that has this one definition — judge the guards at every use of it
+			useStacks := [][]ast.Node{stack}
+			if call == nil {
+				var local types.Object
+				for k := len(stack) - 1; k >= 0; k-- {
+					if as, ok := stack[k].(*ast.AssignStmt); ok && as.Tok == token.DEFINE && len(as.Lhs) == 1 && len(as.Rhs) == 1 {
+						rhs := unparen(as.Rhs[0])
+						if sl, isSl := rhs.(*ast.SliceExpr); isSl {
+							rhs = unparen(sl.X)
+						}
+						if id, isId := as.Lhs[0].(*ast.Ident); isId && rhs == ast.Expr(se) && id.Name != "_" {
+							local = info.Defs[id]
+						}
+					}
+					if _, ok := stack[k].(ast.Stmt); ok {
+						break
+					}
+				}
+				if ds := defs[local]; local != nil && len(ds) == 1 && ds[0] != nil {
+					useStacks = nil
+					okUses := true
+					walkStack(fd.Body, func(m ast.Node, st2 []ast.Node) bool {
+						id, isId := m.(*ast.Ident)
+						if !isId || info.Uses[id] != local {
+							return true
+						}
+						if ce := enclosingCall(st2); ce != nil {
+							direct := false
+							for _, a := range ce.Args {
+								if unparen(a) == ast.Expr(id) {
+									direct = true
+								}
+							}
+							if direct {
+								if call == nil {
+									call = ce
+								}
+								useStacks = append(useStacks, append([]ast.Node(nil), st2...))
+								return true
+							}
+						}
+						okUses = false
+						return true
+					})
+					if !okUses || len(useStacks) == 0 {
+						call = nil
+					}
+				}
+			}
 			if call == nil {
 				c.Undecided(rule, key, se.Pos(), "ParsedTokens.Source is read outside a call argument (%s): cannot tell whether the typed line is executed", c.src(stack[len(stack)-1]))
 				return true
 			}
 			what := calleeName(info, call)
-			var haveExec, haveSafe bool
+			haveExec, haveSafe := true, true
 			var why []string
-			for _, f := range factsOf(guardsAt(info, stack)) {
-				if fv, owner := fieldOf(info, f.E); fv != nil && fv.Name() == "ExecCmdline" && strings.HasSuffix(owner, "autocomplete.Flags") && f.True {
-					haveExec = true
-				}
-				if isField(info, f.E, ptPath, "Unsafe") && !f.True {
-					// same ParsedTokens value
-					a := unparen(f.E).(*ast.SelectorExpr).X
-					if c.sameExpr(a, se.X) {
-						haveSafe = true
-					} else {
-						why = append(why, fmt.Sprintf("the guard tests %s but %s is executed", c.src(f.E), c.src(se)))
+			for _, ust := range useStacks {
+				facts := factsOf(guardsAt(info, ust))
+				// a guard held in a single-definition bool local (`preview := f.ExecCmdline && !pt.Unsafe;
+				// if preview {`) stands for its defining expression (Unsafe is never written in this package)
+				for k := 0; k < len(facts) && k < 64; k++ {
+					if id, isId := unparen(facts[k].E).(*ast.Ident); isId {
+						if r := defs.resolve1(info, id); r != nil {
+							if _, still := r.(*ast.Ident); !still {
+								facts = append(facts, factsOf([]Guard{{Cond: r, Neg: !facts[k].True}})...)
+							}
+						}
 					}
 				}
+				uExec, uSafe := false, false
+				for _, f := range facts {
+					if fv, owner := fieldOf(info, f.E); fv != nil && fv.Name() == "ExecCmdline" && strings.HasSuffix(owner, "autocomplete.Flags") && f.True {
+						uExec = true
+					}
+					if isField(info, f.E, ptPath, "Unsafe") && !f.True {
+						// same ParsedTokens value
+						a := unparen(f.E).(*ast.SelectorExpr).X
+						if c.sameExpr(a, se.X) {
+							uSafe = true
+						} else {
+							why = append(why, fmt.Sprintf("the guard tests %s but %s is executed", c.src(f.E), c.src(se)))
+						}
+					}
+				}
+				haveExec = haveExec && uExec
+				haveSafe = haveSafe && uSafe
 			}
 			if !haveExec {
 				why = append(why, "no dominating test of Flags.ExecCmdline")
@@ -207,6 +277,30 @@ func (s *c34Sum) pendingFalseAt(k int) bool {
 func (c *Ctx) c34Summarise(p *c34Parser, pa *c34Path, pending types.Object) c34Sum {
 	s := c34Sum{unsafeTrue: -1, fold: -1, clearPending: -1, setPending: -1, firstNameMod: -1}
 	popAtName := true // conservatively: pop may point at FuncName until re-pointed at Parameters on this path
+	// unsafeKnown: a decision of the path showed Unsafe == want at or before event k and no store
+	// to Unsafe lies between that decision and k
+	unsafeKnown := func(k int, want bool) bool {
+		for _, d := range pa.Decs {
+			if d.Seq > k {
+				continue
+			}
+			for _, f := range factsOf([]Guard{{Cond: d.E, Neg: !d.Truth}}) {
+				if n, _ := p.ptField(f.E); n != "Unsafe" || f.True != want {
+					continue
+				}
+				clean := true
+				for j := d.Seq; j < k && j < len(pa.Events); j++ {
+					if ev := pa.Events[j]; ev.Kind == c34EvStore && ev.Store.Target == "Unsafe" {
+						clean = false
+					}
+				}
+				if clean {
+					return true
+				}
+			}
+		}
+		return false
+	}
 	for k, ev := range pa.Events {
 		if ev.Kind != c34EvStore {
 			continue
@@ -218,6 +312,10 @@ func (c *Ctx) c34Summarise(p *c34Parser, pa *c34Path, pending types.Object) c34S
 				s.unsafeTrue = k
 			}
 			if st.Class == "fold" && s.fold < 0 {
+				s.fold = k
+			}
+			// `if !Unsafe { Unsafe = isCmdUnsafe(FuncName) }`: under Unsafe == false the plain store is the fold
+			if st.Class == "foldcall" && s.fold < 0 && unsafeKnown(k, false) {
 				s.fold = k
 			}
 		case st.Target == "ExpectFunc" && st.Class == "true":
@@ -259,6 +357,19 @@ func (c *Ctx) c34Summarise(p *c34Parser, pa *c34Path, pending types.Object) c34S
 				s.setPending = k
 				s.pendSets = append(s.pendSets, k)
 			}
+		}
+	}
+	if s.unsafeTrue < 0 && unsafeKnown(len(pa.Events), true) {
+		// the path runs only where Unsafe is already true and leaves it alone (the other arm of
+		// `if !Unsafe { Unsafe = isCmdUnsafe(FuncName) }`): the verdict stays unsafe
+		lowered := false
+		for _, ev := range pa.Events {
+			if ev.Kind == c34EvStore && ev.Store.Target == "Unsafe" && ev.Store.Class != "true" && ev.Store.Class != "fold" {
+				lowered = true
+			}
+		}
+		if !lowered {
+			s.unsafeTrue = 0
 		}
 	}
 	for _, d := range pa.Decs {
@@ -525,9 +636,32 @@ func (c *Ctx) c34IsCmdUnsafe(p *c34Parser) {
 	nFalse, nTrue := 0, 0
 	ok := true
 	why := ""
+	isNotContains := func(e ast.Expr) bool {
+		u, isU := unparen(e).(*ast.UnaryExpr)
+		if !isU || u.Op != token.NOT {
+			return false
+		}
+		call, isC := unparen(u.X).(*ast.CallExpr)
+		if !isC || len(call.Args) != 2 {
+			return false
+		}
+		fn, isF := callee(info, call).(*types.Func)
+		if !isF || fn.Pkg() == nil || fn.Pkg().Path() != "slices" || fn.Name() != "Contains" {
+			return false
+		}
+		a, ok1 := unparen(call.Args[0]).(*ast.Ident)
+		b, ok2 := unparen(call.Args[1]).(*ast.Ident)
+		return ok1 && ok2 && info.ObjectOf(a) == safe && info.ObjectOf(b) == param
+	}
 	walkStack(fd.Body, func(n ast.Node, stack []ast.Node) bool {
 		rs, isRet := n.(*ast.ReturnStmt)
 		if !isRet || len(rs.Results) != 1 {
+			return true
+		}
+		if isNotContains(rs.Results[0]) {
+			// `return !slices.Contains(safeCmds, f)`: false exactly for members, true otherwise
+			nFalse++
+			nTrue++
 			return true
 		}
 		b, isConst := constBool(info, rs.Results[0])
@@ -593,7 +727,7 @@ func (c *Ctx) c34IsCmdUnsafe(p *c34Parser) {
 	// last statement must be return true
 	if len(fd.Body.List) > 0 {
 		if rs, isRet := fd.Body.List[len(fd.Body.List)-1].(*ast.ReturnStmt); isRet && len(rs.Results) == 1 {
-			if b, isC := constBool(info, rs.Results[0]); !isC || !b {
+			if b, isC := constBool(info, rs.Results[0]); (!isC || !b) && !isNotContains(rs.Results[0]) {
 				ok, why = false, "the fall-through result is not `true`: a name that is on no list is reported safe"
 			}
 		} else {
